@@ -88,6 +88,30 @@ extern "C" void harness() {
   __verif_observe(wl);
   __verif_cover("end");
 }
+#elif defined(H19E)
+// H19E: arbitrary (symbolic) window parameters of the rough legalization: whatever RoughLegalizationParameters::check() accepts
+// lies inside the documented ranges and gives every reoptimisation pass a positive stride (size - overlap >= 1 when the pass is
+// enabled), so that the window loops `i += size - overlap` of DensityLegalizer terminate; and what it refuses is refused by an
+// exception, nothing else.
+extern "C" void harness() {
+  RoughLegalizationParameters rp(3);
+  int ls = __verif_nondet_int(-3, 70), lo = __verif_nondet_int(-3, 70), ds = __verif_nondet_int(-3, 70), dov = __verif_nondet_int(-3, 70), ss = __verif_nondet_int(-3, 70), so = __verif_nondet_int(-3, 70);
+  rp.lineReoptSize = ls; rp.lineReoptOverlap = lo; rp.diagReoptSize = ds; rp.diagReoptOverlap = dov; rp.squareReoptSize = ss; rp.squareReoptOverlap = so;
+  bool threw = false;
+  try { rp.check(); } catch (const std::runtime_error&) { threw = true; }
+  if (!threw) {
+    VASSERT(ls >= 1 && ds >= 1 && ss >= 1 && lo >= 1 && dov >= 1 && so >= 1, "accepted sizes and overlaps are at least 1");
+    VASSERT(ls <= 64 && ds <= 64 && ss <= 8, "accepted window sizes are small");
+    VASSERT(ls <= 1 || ls - lo >= 1, "an enabled line pass advances (overlap smaller than size)");
+    VASSERT(ds <= 1 || ds - dov >= 1, "an enabled diagonal pass advances (overlap smaller than size)");
+    VASSERT(ss <= 1 || ss - so >= 1, "an enabled square pass advances (overlap smaller than size)");
+  } else {
+    // the converse for the documented overlap rule: a set that respects every documented range is not refused
+    bool ok = ls >= 2 && ds >= 2 && ss >= 2 && ls <= 64 && ds <= 64 && ss <= 8 && lo >= 1 && dov >= 1 && so >= 1 && lo < ls && dov < ds && so < ss;
+    VASSERT(!ok, "a window parameter set inside every documented range is accepted");
+  }
+  __verif_cover("end");
+}
 #else
 // H19D: a rejected parameter set leaves the circuit unmodified (public state), whatever the stage
 extern "C" void harness() {
